@@ -144,6 +144,19 @@ func (state *RuntimeState) idpOpenIDCGetClientConfig(client_id string) (*OpenIDC
 	return nil, ErrorIDPClientNotFound
 }
 
+// hostMatchesDomain returns true if host is the given domain or a subdomain of
+// it. A plain suffix match is not enough: "evilexample.com" ends with
+// "example.com" too. Domains configured with a leading dot match subdomains only.
+func hostMatchesDomain(host, domain string) bool {
+	if domain == "" {
+		return false
+	}
+	if strings.HasPrefix(domain, ".") {
+		return strings.HasSuffix(host, domain)
+	}
+	return host == domain || strings.HasSuffix(host, "."+domain)
+}
+
 // https://tools.ietf.org/id/draft-ietf-oauth-security-topics-10.html states
 // that redirects MUST be exact matches.
 // We allow our users to be less strict (for facilitation of internal deployments).
@@ -189,7 +202,7 @@ func (client *OpenIDConnectClientConfig) CanRedirectToURL(redirectUrl string) (b
 	}
 	matchedDomain := false
 	for _, domain := range client.AllowedRedirectDomains {
-		matched := strings.HasSuffix(parsedURL.Hostname(), domain)
+		matched := hostMatchesDomain(parsedURL.Hostname(), domain)
 		if matched {
 			matchedDomain = true
 			break
@@ -208,7 +221,7 @@ func (client *OpenIDConnectClientConfig) CorsOriginAllowed(origin string) (bool,
 		return false, nil
 	}
 	for _, domain := range client.AllowedRedirectDomains {
-		matched := strings.HasSuffix(parsedURL.Hostname(), domain)
+		matched := hostMatchesDomain(parsedURL.Hostname(), domain)
 		if matched {
 			return true, nil
 		}
@@ -240,7 +253,7 @@ func (state *RuntimeState) idpOpenIDCGenericIsCorsOriginAllowed(origin string) (
 	}
 	for _, client := range state.Config.OpenIDConnectIDP.Client {
 		for _, domain := range client.AllowedRedirectDomains {
-			matched := strings.HasSuffix(parsedURL.Hostname(), domain)
+			matched := hostMatchesDomain(parsedURL.Hostname(), domain)
 			if matched {
 				return true, nil
 			}
